@@ -1,4 +1,72 @@
-/- Driver.C20 — stream `C20` (stub: replaced when the property's model is built). -/
+/-
+  Driver.C20 — stream `C20`: payload `( kind seed (spare*) target parsed "name" )` (Driver.DomWire formats).
+  Output `( fromHTML elements blocks append created )`:
+    fromHTML := (raise K) | (ok tree)              createElementFromHTML
+    elements := ( (tree | none)* )                 createElementsFromHTML
+    blocks   := ( ("text" | tree)* )               createBlocksFromHTML
+    append   := (outside) | ( world "innerHTML of the target" )      after target.appendInnerHTML
+    created  := tree                                createElement(name)
+    tree  := ( elem* ) pre-order;   elem := ( uid "name" sc (block*) (child*) "text" parent owner ((k v)*) )
+            (the three constructor results omit `owner`: the property does not speak about it)
+    owner := none | tmp (the temporary parser) | document number
+-/
+import Driver.DomWire
+import AHP.Model.Fragment
 namespace Driver.C20
-def run (_payload : String) : String := "unimplemented"
+open AHP AHP.Sexp AHP.Dom Driver.DomWire
+
+def ownerSx (known : Nat) : Option Nat → Sexp
+  | none => sym "none"
+  | some d => if d < known then natAtom d else sym "tmp"
+
+def elemSx (known : Nat) (e : Meta × List DN) : Sexp :=
+  .list [natAtom e.1.id, strAtom e.1.name, sym (if e.1.sc then "1" else "0"), .list (e.2.map blockSx),
+         .list (e.1.children.map natAtom), strAtom e.1.text, optNat e.1.parent, ownerSx known e.1.owner,
+         .list (e.1.attrs.map (fun a => .list [strAtom a.1, optStr a.2]))]
+
+/-- an element of a returned fragment: the property does not speak about the ownerDocument of what the
+    constructors hand out, so it is not part of the comparison -/
+def fragElemSx (e : Meta × List DN) : Sexp :=
+  .list [natAtom e.1.id, strAtom e.1.name, sym (if e.1.sc then "1" else "0"), .list (e.2.map blockSx),
+         .list (e.1.children.map natAtom), strAtom e.1.text, optNat e.1.parent,
+         .list (e.1.attrs.map (fun a => .list [strAtom a.1, optStr a.2]))]
+
+def fragSx (n : DN) : Sexp := .list ((elems n).map fragElemSx)
+
+def treeSx (known : Nat) (n : DN) : Sexp := .list ((elems n).map (elemSx known))
+
+def run (payload : String) : String :=
+  match Sexp.parse payload with
+  | some (.list [.atom kind, seed, .list spares, t, p, name]) =>
+    match (do
+      let seed ← toFN seed
+      let spares ← spares.mapM toFN
+      let t ← toNat? t
+      let p ← toParsed p
+      let name ← toStr? name
+      let doc ← (if kind = "doc" then some true else if kind = "det" then some false else none)
+      pure (initWorld doc seed spares, t, p, name)) with
+    | none => "bad-case"
+    | some (w, t, p, name) =>
+      let known := w.nextDoc
+      let a := match createElementFromHTML w.nextDoc w.next p with
+        | .ok r => Sexp.list [sym "ok", fragSx r]
+        | .error k => Sexp.list [sym "raise", sym k]
+      let b := Sexp.list ((createElementsFromHTML w.nextDoc w.next p).map (fun o => match o with
+        | some r => fragSx r
+        | none => sym "none"))
+      let c := Sexp.list ((createBlocksFromHTML w.nextDoc w.next p).map (fun b => match b with
+        | .text s => strAtom s
+        | .el m k => fragSx (.el m k)))
+      let d := match w.appendInnerHTML t p with
+        | none => Sexp.list [sym "outside"]
+        | some (w', _) =>
+          Sexp.list [.list ((allElems w').map (elemSx known)),
+                     match w'.find? t with
+                     | some (m, bs) => strAtom (innerHTML m bs)
+                     | none => sym "none"]
+      let e := treeSx known (createElement name w.next)
+      (Sexp.list [a, b, c, d, e]).render
+  | _ => "bad-case"
+
 end Driver.C20
